@@ -19,7 +19,7 @@ func HarnessLockDisciplineMem() {
 	c := newMem(shards, limit)
 	vClockFreeze(true)
 	now := time.Now()
-	for i := 0; i < 3; i++ {
+	for i := 0; i < vParam("keys", 3); i++ {
 		if n := symRange(0, 2); n > 0 {
 			exp := now.Add(time.Hour)
 			if symChoice(2) == 1 {
@@ -31,12 +31,12 @@ func HarnessLockDisciplineMem() {
 	// locks held by other parties
 	switch symChoice(3) {
 	case 1:
-		vHoldLock(getLock(c.locks, vKeys[symChoice(3)]), true)
+		vHoldLock(getLock(c.locks, vKeys[symChoice(vParam("keys", 3))]), true)
 	case 2:
 		vHoldLock(&c.mu, symChoice(2) == 1)
 	}
 	vLockMonitor(".mu")
-	k := vKeys[symChoice(3)]
+	k := vKeys[symChoice(vParam("keys", 3))]
 	switch symChoice(8) {
 	case 0:
 		c.Cache(k, &symReader{data: symBytes(symRange(0, 2)), failAt: -1}, now.Add(time.Hour), vmeta{})
@@ -75,7 +75,7 @@ func HarnessLockDisciplineFile() {
 	c := newFile(shards, limit)
 	vClockFreeze(true)
 	now := time.Now()
-	for i := 0; i < 3; i++ {
+	for i := 0; i < vParam("keys", 3); i++ {
 		if n := symRange(0, 2); n > 0 {
 			exp := now.Add(time.Hour)
 			if symChoice(2) == 1 {
@@ -86,13 +86,13 @@ func HarnessLockDisciplineFile() {
 	}
 	switch symChoice(3) {
 	case 1:
-		vHoldLock(getLock(c.locks, vKeys[symChoice(3)]), true)
+		vHoldLock(getLock(c.locks, vKeys[symChoice(vParam("keys", 3))]), true)
 	case 2:
 		vHoldLock(&c.mu, symChoice(2) == 1)
 	}
 	vFSFaults(1)
 	vLockMonitor(".mu")
-	k := vKeys[symChoice(3)]
+	k := vKeys[symChoice(vParam("keys", 3))]
 	switch symChoice(8) {
 	case 0:
 		c.Cache(k, &symReader{data: symBytes(symRange(0, 2)), failAt: -1}, now.Add(time.Hour), vmeta{})
